@@ -123,6 +123,7 @@ def run(chk: lib.Check):
                 if e is not None and e.get("id") and e.get("id") in byid:
                     plparents.append(e.get("id"))
         plparents = list(dict.fromkeys(plparents))
+        plends_set = set(plends)
         # subtrees of which ONE holder's relation (a list attribute, or link elements sharing parent, tag and attribute) references
         # several distinct members: the purge has to take all of them out of that one relation
         groups = collections.defaultdict(list)
@@ -160,9 +161,12 @@ def run(chk: lib.Check):
         stats["pool-multi-referenced-subtrees"] = len(multi)
         plan = []
         share = max(1, n_targets // (6 * len(specs)))
+        refusal_pool = set()
         for pool in (leaves, roots, popular, plends, plparents, multi):
             rng.shuffle(pool)
             plan += pool[:share]
+            if pool is plends or pool is plparents:
+                refusal_pool.update(pool[:share])
         rng.shuffle(plan)
         del plan_model
         base_broken = None
@@ -199,7 +203,20 @@ def run(chk: lib.Check):
             del_acc = getattr(type(par), relname)
             tel = obj._element
             # ---- the entry point decides how many objects go at once
-            entry = rng.choice(["delitem", "delitem", "remove", "delete_all", "delattr", "delslice", "delslice", "decl", "decl"])
+            entry = rng.choice(["delitem", "delitem", "remove", "delete_all", "delattr", "delattr", "delslice", "delslice", "decl", "decl"])
+            if tid in refusal_pool:
+                # where a refusal is likely, delete it together with its siblings: all-or-nothing has to hold for the whole call
+                entry = rng.choice(["delattr", "delattr", "delslice", "decl", "delitem"])
+            if tid in refusal_pool and entry == "delattr" and rng.random() < 0.6:
+                # make sure a member that CAN be deleted comes first (the stock models list the refusing ones first)
+                try:
+                    fresh = lst.create(name="c09 deletable first member")
+                    lst.insert(0, fresh)
+                    lst = getattr(par, relname)
+                    idx = next(i_ for i_, e_ in enumerate(lst._elements) if e_ is obj._element)
+                    stats["fresh-member-put-first"] += 1
+                except Exception:  # noqa: BLE001
+                    lst = getattr(par, relname)
             members = list(lst._elements)
             lo = hi = None
             if entry == "delslice":
@@ -207,7 +224,7 @@ def run(chk: lib.Check):
                 hi = min(len(members), idx + 1 + rng.randint(0, 2))
                 roots_el = members[lo:hi]
             elif entry == "delattr":
-                if len(members) > 8:
+                if len(members) > 40:
                     entry = "delitem"
                     roots_el = [tel]
                 else:
@@ -222,6 +239,18 @@ def run(chk: lib.Check):
                     roots_el = [tel]
             else:
                 roots_el = [tel]
+            if tid in refusal_pool and entry in ("delslice", "decl") and len(members) > 1:
+                # a member that can be deleted FOLLOWED by one that refuses: the call must fail as a whole
+                ref_ = [any(d_.get("id") in plends_set for d_ in m_.iter() if isinstance(d_.tag, str)) for m_ in members]
+                pairs_ = [(i_, j_) for i_ in range(len(members)) if not ref_[i_] for j_ in range(i_ + 1, len(members)) if ref_[j_]]
+                if pairs_:
+                    i_, j_ = rng.choice(pairs_)
+                    if entry == "delslice":
+                        lo, hi = i_, j_ + 1
+                        roots_el = members[lo:hi]
+                    elif all(members[k_].get("id") for k_ in (i_, j_)):
+                        roots_el = [members[i_], members[j_]]
+                    stats["deletable-then-refusing-members"] += 1
             T = [e for r_ in roots_el for e in r_.iter() if isinstance(e.tag, str)]
             Tset = {id(e) for e in T}
             tids = {e.get("id") for e in T if e.get("id")}
